@@ -61,7 +61,7 @@ var StringPool = []string{"a", "A", "ab", "aB", "Ab", "AB", "abc", "abd", "b", "
 var TagPool = []string{"red", "Red", "RED", "blue", "green", "a", "ab", "x", "tag1", "tag2", "Tag1"}
 
 var DefaultVocabulary = []string{"the", "quick", "brown", "fox", "jumps", "over", "lazy", "dog", "Gandalf", "wizard", "grey", "Frodo", "ring", "and", "of", "a", "is", "to",
-	"summer", "floral", "maxi", "dress", "résumé", "naïve", "日本語", "straße", "B2B", "e-mail", "hello", "world", "Hello", "WORLD", "42", "3.14", "it's", "rock'n'roll", "über", "x", "semadb", "vector", "search", "graph"}
+	"summer", "floral", "maxi", "dress", "résumé", "naïve", "日本語", "straße", "B2B", "e-mail", "hello", "world", "Hello", "WORLD", "42", "3.14", "it's", "rock'n'roll", "über", "x", "semadb", "vector", "search", "graph", "µm", "μm", "σοφός", "Kelvin", "ſeven", "seven"}
 
 // Vector generates a vector suitable for the metric.
 func (g *G) Vector(dim int, metric string) []float32 {
@@ -309,7 +309,12 @@ func (g *G) UpdateDoc(cur model.Doc) model.Doc {
 	props := g.SortedProps()
 	n := 1 + g.R.IntN(3)
 	for i := 0; i < n; i++ {
-		switch g.R.IntN(7) {
+		switch g.R.IntN(8) {
+		case 7:
+			// near rewrite of a stored text: the new text differs from the old one only by
+			// letter case, by runes of one case-folding orbit (which the analyser may or may
+			// not keep apart), or by spacing
+			g.nearRewrite(cur, u, props)
 		case 0, 1, 2: // change / add an indexed field
 			if len(props) == 0 {
 				continue
@@ -355,6 +360,68 @@ func (g *G) UpdateDoc(cur model.Doc) model.Doc {
 		}
 	}
 	return u
+}
+
+// foldVariants maps a rune to another rune of its simple case-folding orbit that is not its
+// upper or lower case counterpart (micro sign / greek mu, long s / s, final / medial sigma,
+// kelvin sign / k, symbol variants of greek letters).
+var foldVariants = map[rune]rune{'µ': 'μ', 'μ': 'µ', 's': 'ſ', 'ſ': 's', 'σ': 'ς', 'ς': 'σ', 'k': '\u212A', '\u212A': 'k',
+	'β': 'ϐ', 'ϐ': 'β', 'θ': 'ϑ', 'ϑ': 'θ', 'φ': 'ϕ', 'ϕ': 'φ', 'π': 'ϖ', 'ϖ': 'π', 'å': '\u212B', '\u212B': 'å'}
+
+func (g *G) nearRewrite(cur, u model.Doc, props []string) {
+	if cur == nil {
+		return
+	}
+	var cands []string
+	for _, p := range props {
+		if g.Schema[p].Type != models.IndexTypeText {
+			continue
+		}
+		if v, ok := model.Lookup(cur, p); ok {
+			if s, isStr := v.(string); isStr && s != "" {
+				cands = append(cands, p)
+			}
+		}
+	}
+	if len(cands) == 0 {
+		return
+	}
+	p := cands[g.R.IntN(len(cands))]
+	v, _ := model.Lookup(cur, p)
+	old := v.(string)
+	var text string
+	switch g.R.IntN(5) {
+	case 0:
+		text = strings.ToUpper(old)
+	case 1:
+		text = strings.ToLower(old)
+	case 2:
+		text = strings.Join(strings.Fields(old), "  ")
+	default:
+		// swap every rune that has a fold variant with probability 1/2, at least one if any
+		rs := []rune(old)
+		swapped := false
+		for i, r := range rs {
+			if w, ok := foldVariants[r]; ok && (g.R.IntN(2) == 0 || !swapped) {
+				rs[i] = w
+				swapped = true
+			}
+		}
+		text = string(rs)
+	}
+	top := strings.Split(p, ".")[0]
+	if top == p {
+		u[p] = text
+		return
+	}
+	// nested: the merge is shallow, so send the whole parent with the one value changed
+	parent, ok := model.Clone(cur[top]).(map[string]any)
+	if !ok {
+		return
+	}
+	d := model.Doc(map[string]any{top: parent})
+	setPath(d, p, text)
+	u[top] = parent
 }
 
 // ---------------------------------------------------------------------------
